@@ -1,4 +1,6 @@
-//! bounded stand-ins (never counted as proved), see C19
+//! bounded stand-ins for C19 (NOT registered in groups.json / MANIFEST: measured 2026-09-28, `eq_1_1` and `clone_1`
+//! each ran into the 25 min timeout at ~5 GB of CBMC memory - one symbolic insertion per operand is already too
+//! much for the Vec-based arena; kept as the record of that negative result, see DESIGN.md 10.7)
 #![allow(dead_code)]
 #[cfg(kani)]
 mod b19 {
